@@ -123,9 +123,8 @@ func c03SameValue(c *Ctx) {
 			case "(*cmd/rdpgw/protocol.Processor).Process":
 				// must be the dialled value, after the dial
 				okv := false
-				for d := range seenDial {
-					call := d.(*ssa.Call)
-					if call.Call.Args[1] == s.Val && dominatesInstr(call, s) {
+				for _, call := range c.dialLikeIn(f) {
+					if a := c.dialLikeAddr(call, 0); a != nil && strip(a) == strip(s.Val) && dominatesInstr(call, s) {
 						okv = true
 					}
 				}
@@ -134,11 +133,9 @@ func c03SameValue(c *Ctx) {
 				// a helper of the packet loop that dials and then records the dialled address
 				if pr := c.Fn("cmd/rdpgw/protocol", "Processor.Process"); c.onlyCalledFrom(f, pr, 0) {
 					okv := false
-					for _, ci := range callsIn(f) {
-						if n := calleeName(ci); strings.HasPrefix(n, "net.Dial") {
-							if call, isCall := ci.(*ssa.Call); isCall && len(call.Call.Args) > 1 && call.Call.Args[1] == s.Val && dominatesInstr(call, s) {
-								okv = true
-							}
+					for _, call := range c.dialLikeIn(f) {
+						if a := c.dialLikeAddr(call, 0); a != nil && strip(a) == strip(s.Val) && dominatesInstr(call, s) {
+							okv = true
 						}
 					}
 					c.Check(okv, rule, "write TargetServer in "+sf, s.Pos(), "records the dialled address after the dial", "Tunnel.TargetServer is overwritten in the packet loop with something other than the dialled address, or before the dial")
